@@ -400,12 +400,24 @@ where
 
             sponge.absorb(&to_bytes!(&commitment.root).map_err(|_| Error::TranscriptError)?);
 
+            // The shape of the proof is dictated by the commitment: one opened combination of
+            // `n_cols` entries and `t` authenticated columns.
+            if proof.opening.v.len() != n_cols
+                || proof.opening.columns.len() != t
+                || proof.opening.paths.len() != t
+            {
+                return Err(Error::InvalidCommitment);
+            }
+
             let out = if vk.check_well_formedness() {
                 if proof.well_formedness.is_none() {
                     return Err(Error::InvalidCommitment);
                 }
                 let tmp = &proof.well_formedness.as_ref();
                 let v = tmp.unwrap();
+                if v.len() != n_cols {
+                    return Err(Error::InvalidCommitment);
+                }
                 let r = sponge.squeeze_field_elements::<F>(n_rows);
                 // Upon sending `v` to the Verifier, add it to the sponge. The claim is that v = r.M.
                 sponge.absorb(&v);
